@@ -443,26 +443,29 @@ Inductive signal_data :=
 | SigStrings (strings : list (list byte)).
 Record signal := mk_signal { s_idx : list N; s_data : signal_data }.
 
+(* the per-block loop of Reader::load_signal *)
+Fixpoint load_go (tpe : sig_enc) (max_states : states) (l : list (N * list byte * enc_meta)) (acc : load_acc)
+  : outcome load_acc :=
+  match l with
+  | [] => Ok acc
+  | (off, data_block, meta) :: r =>
+    do data <- (match em_comp meta with
+                | Compressed ulen => of_option (lz_decompress data_block (N.to_nat ulen))
+                | Uncompressed => Ok data_block
+                end);
+    do acc' <- (match tpe with
+                | EncString => load_strings (S (length data)) data off acc
+                | EncBits bits => load_fixed (S (length data)) data off bits max_states acc
+                | EncReal => load_reals (S (length data)) data off acc
+                end);
+    load_go tpe max_states r acc'
+  end.
+
 (* Reader::load_signal *)
 Definition load_signal (blocks : list block) (id : nat) (tpe : sig_enc) : outcome signal :=
   do metas <- collect_meta blocks id 0;
   let max_states := max_states_of metas in
-  do acc <-
-    (fix go (l : list (N * list byte * enc_meta)) (acc : load_acc) : outcome load_acc :=
-       match l with
-       | [] => Ok acc
-       | (off, data_block, meta) :: r =>
-         do data <- (match em_comp meta with
-                     | Compressed ulen => of_option (lz_decompress data_block (N.to_nat ulen))
-                     | Uncompressed => Ok data_block
-                     end);
-         do acc' <- (match tpe with
-                     | EncString => load_strings (S (length data)) data off acc
-                     | EncBits bits => load_fixed (S (length data)) data off bits max_states acc
-                     | EncReal => load_reals (S (length data)) data off acc
-                     end);
-         go r acc'
-       end) metas (mk_acc [] [] []);
+  do acc <- load_go tpe max_states metas (mk_acc [] [] []);
   match tpe with
   | EncString => Ok (mk_signal (la_idx acc) (SigStrings (la_strings acc)))
   | EncBits bits =>
